@@ -12,6 +12,7 @@ import (
 	"os"
 	"path/filepath"
 	"runtime/debug"
+	"sort"
 	"strings"
 
 	"github.com/vektah/gqlparser/v2"
@@ -69,6 +70,18 @@ func newEnv(salt uint64) (*env, error) {
 		return nil, fmt.Errorf("gqlparser schema: %v", gerr)
 	}
 	e := &env{def: def, compiler: compiler, mapping: m, schema: schema}
+	membersOf = func(typeName string) []string {
+		d := schema.Types[typeName]
+		if d == nil || (d.Kind != gast.Interface && d.Kind != gast.Union) {
+			return nil
+		}
+		var out []string
+		for _, p := range schema.GetPossibleTypes(d) {
+			out = append(out, p.Name)
+		}
+		sort.Strings(out)
+		return out
+	}
 	e.svc = &service{salt: salt, mapping: m, gqlType: e.buildNullabilityTable()}
 	return e, nil
 }
